@@ -610,6 +610,60 @@ Proof.
   - intros H. replace (p =? sentinel) with false by lia. reflexivity.
 Qed.
 
+(* ------------------------------------- a whole dss history is defined *)
+Section HistoryDefined.
+Variable P : Type.
+
+Definition is_dss_op (o : op) : bool := match o with HoldoutInit _ => false | _ => true end.
+Definition n_reshuffles (c : config) (ops : list op) : nat := length (filter (reshuffles c) ops).
+
+Lemma step_population : forall c o (st : state P) ds st' ds' r,
+  step P c o st ds = Some (st', ds', r) -> population P st' = population P st.
+Proof. intros. apply idents_population. eapply step_conserves; eauto. Qed.
+
+Lemma dss_history_defined : forall c ops (st : state P) bs,
+  forallb is_dss_op ops = true -> gap c <> 0 ->
+  2 <= population P st -> target_ok c (population P st) ->
+  length bs = (Z.to_nat (population P st) * n_reshuffles c ops)%nat ->
+  exists tr, run_ops P c ops st (bools bs) = Some (tr, []).
+Proof.
+  intros c ops. induction ops as [|o ops IH]; intros st bs Hd Hg Hpop Ht Hlen.
+  - unfold n_reshuffles in Hlen. cbn in Hlen. rewrite Nat.mul_0_r in Hlen. destruct bs; [|discriminate].
+    exists []. reflexivity.
+  - cbn [forallb] in Hd. apply andb_prop in Hd. destruct Hd as [Ho Hd].
+    set (n := Z.to_nat (population P st)) in *.
+    assert (Hstep : exists st1 bs1 r, step P c o st (bools bs) = Some (st1, bools bs1, r)
+                                      /\ length bs1 = (n * n_reshuffles c ops)%nat).
+    { unfold n_reshuffles in Hlen. cbn [filter] in Hlen.
+      destruct (reshuffles c o) eqn:Er.
+      - cbn [length] in Hlen. rewrite Nat.mul_succ_r in Hlen.
+        assert (Hsplit : bools bs = bools (firstn n bs) ++ bools (skipn n bs)).
+        { unfold bools. rewrite <- map_app, firstn_skipn. reflexivity. }
+        assert (Hf : Z.of_nat (length (firstn n bs)) = population P st).
+        { rewrite firstn_length. unfold n in *. lia. }
+        assert (Hs : length (skipn n bs) = (n * n_reshuffles c ops)%nat).
+        { rewrite skipn_length. unfold n_reshuffles. lia. }
+        destruct o as [run|run|gen|run|f g]; cbn [reshuffles] in Er; try discriminate.
+        + destruct (dss_init_progress P c st (firstn n bs) (bools (skipn n bs)) Ht Hpop Hf) as [st1 H1].
+          exists st1, (skipn n bs), None. split; [|exact Hs]. cbn [step]. rewrite Hsplit, H1. reflexivity.
+        + destruct (dss_shake_progress P c gen st (firstn n bs) (bools (skipn n bs)) Hg Er Ht Hpop Hf) as [st1 H1].
+          exists st1, (skipn n bs), (Some true). split; [|exact Hs]. cbn [step]. rewrite Hsplit, H1. reflexivity.
+      - fold (n_reshuffles c ops) in Hlen.
+        destruct o as [run|run|gen|run|f g]; cbn [reshuffles is_dss_op] in *; try discriminate.
+        + exists st, bs, (Some false). split; [|exact Hlen]. cbn [step]. unfold dss_shake.
+          replace (gap c =? 0) with false by lia. rewrite Er. reflexivity.
+        + eexists _, bs, None. split; [reflexivity|exact Hlen].
+        + eexists _, bs, None. split; [reflexivity|exact Hlen]. }
+    destruct Hstep as (st1 & bs1 & r & Hs & Hl1).
+    pose proof (step_population _ _ _ _ _ _ _ Hs) as Hpe.
+    assert (H2 : 2 <= population P st1) by (rewrite Hpe; assumption).
+    assert (H3 : target_ok c (population P st1)) by (rewrite Hpe; assumption).
+    assert (H4 : length bs1 = (Z.to_nat (population P st1) * n_reshuffles c ops)%nat) by (rewrite Hpe; exact Hl1).
+    destruct (IH st1 bs1 Hd Hg H2 H3 H4) as [tr Htr].
+    exists ((st1, r) :: tr). cbn [run_ops]. rewrite Hs, Htr. reflexivity.
+Qed.
+End HistoryDefined.
+
 (* ------------------------------------------- statements used by Props *)
 Lemma holdout_share_thm : forall (P : Type) c run (st : state P) ds st' ds',
   holdout_init P c run st ds = Some (st', ds') -> run <= 0 ->
